@@ -570,6 +570,14 @@ extern "C" int harness_main() {
         verif_reach("minimality-checked");
       }
 #endif
+#ifdef CHECK_C08
+      { // what this session recorded is in the log on disk, whoever else rewrote the log meanwhile
+        BuildLog log; std::string lerr; log.Load(".ninja_log", &lerr); bool recorded = true;
+        for (size_t i = 0; i < g_ref.size(); i++) if (!g_ref[i].phony && has_id(r.finished_ok, g_ref[i].ordinal)) { BuildLog::LogEntry* le = log.LookupByOutput(g_ref[i].outs[0]);
+          recorded = recorded && le != NULL && le->command_hash == BuildLog::LogEntry::HashCommand(g_ref[i].command); }
+        VERIF_ASSERT(recorded, "C08: the latest record of every command that succeeded in this session is in the log, also when -t restat rewrote the log during the build");
+        verif_reach("records-checked"); }
+#endif
 #ifdef CHECK_C02
       InvocationOpts o2 = o; o2.run.may_fail = false;
       InvocationResult r2 = invoke(o2);
